@@ -212,7 +212,10 @@ fn not_alone() -> impl Strategy<Value = Case> {
                 }
                 parts.join("*")
             };
-            let q = format!("{} {} to {}", x.text, spell(&a.1), spell(&b.1));
+            // the same shapes as the two operands of a sum or a difference (the right operand is converted
+            // into the unit of the left one): a flag taken from the literal keeps the strategy's shape
+            let as_sum = x.text.len() % 3 == 0;
+            let q = if as_sum { format!("0 {} + {} {}", spell(&b.1), x.text, spell(&a.1)) } else { format!("{} {} to {}", x.text, spell(&a.1), spell(&b.1)) };
             // interval conversion: only the degree size (and its prefix) matters, the other units are identical on both sides
             let da = a.0.degree() * crate::tool::pow10(a.2 as i64);
             let db = b.0.degree() * crate::tool::pow10(b.2 as i64);
